@@ -536,6 +536,16 @@ func c04TZ(env *core.Env, resources []fhir.Resource) {
 	progs := append([]string{}, c04Sources...)
 	progs = append(progs, "@2020-03-08T02:30:00 + 1 day", "@2020-01-01T00:00:00Z.toString()", "'2020-06-30T23:30:00-11:00'.toDateTime()", "@2020-06-30T23:30:00-11:00 = @2020-07-01T10:30:00Z", "Patient.birthDate.toString()",
 		"Patient.birthDate + 1 day", "Patient.meta.lastUpdated.toString()", "@T23:59:59 + 2 seconds", "today() - 1 day", "now() + 36 hours", "Patient.descendants().where($this is dateTime)", "Patient.descendants().where($this is date).select($this + 1 month)")
+	// values written with exactly the offsets the tested zones have (standard and daylight-saving time): the Go
+	// runtime represents such an offset by time.Local, every other one by a fresh fixed zone
+	for _, off := range []string{"+05:30", "-03:30", "-02:30", "+12:45", "+13:45", "Z", "+00:00", "-11:00"} {
+		for _, day := range []string{"2020-01-01", "2020-07-01"} {
+			progs = append(progs,
+				"@"+day+"T23"+off+" = @"+day+"T23:40"+off, "@"+day+"T23"+off+" < @"+day+"T23:40"+off, "@"+day+"T23:40:10"+off+" >= @"+day+"T23"+off,
+				"@"+day+"T10:00:00"+off+".toString()", "'"+day+"T10:00:00"+off+"'.toDateTime().toString()", "@"+day+"T23:40:00"+off+" + 1 day", "@"+day+"T23:40:00"+off+".toDate()",
+				"@"+day+"T23:40:00"+off+" = '"+day+"T23:40:00"+off+"'.toDateTime()", "@"+day+"T00:10:00"+off+" - 1 month", "@"+day+"T10"+off+" <= @"+day+"T10:00"+off)
+		}
+	}
 	eo := append(gen.EnvOpts(gen.StdEnv()), evalopts.OverrideTime(c04Fixed))
 	co := []fhirpath.CompileOption{compopts.WithExperimentalFuncs(), compopts.AddFunction("nap", func(in system.Collection) (system.Collection, error) { return in, nil })}
 	for _, p := range progs {
